@@ -578,10 +578,11 @@ func inferArguments(methodBody string, argumentsSpec string) []TiArgument {
 		argcCheckMatches := argcCheckPattern.FindAllStringSubmatch(methodBody, -1)
 		minimumRequiredArgc := 0
 
+		// every argument from the lowest guarded index on is optional
 		for _, matchGroups := range argcCheckMatches {
 			argcValue := 0
 			fmt.Sscanf(matchGroups[1], "%d", &argcValue)
-			if argcValue > minimumRequiredArgc {
+			if minimumRequiredArgc == 0 || argcValue < minimumRequiredArgc {
 				minimumRequiredArgc = argcValue
 			}
 		}
